@@ -1307,7 +1307,7 @@ static char *ex_arg(char *src, char *dst, char *excmd)
 	} else if ((c0 == 's' && c1 != 'e') || c0 == '&' || c0 == '~') {
 		int delim = *src;
 		int cnt = 2;
-		if (delim != '\n' && delim != '|' && delim != '\\' && delim != '"') {
+		if (delim && delim != '\n' && delim != '|' && delim != '\\' && delim != '"') {
 			*dst++ = *src++;
 			while (*src && *src != '\n' && cnt > 0) {
 				if (*src == delim)
